@@ -3,7 +3,7 @@
 cd "$(dirname "$0")/.."
 for p in C03 C04 C05 C06 C07 C08 C09 C12 C13 C14 C15 C16 C17 C18 C19; do
   start=$(date +%s)
-  ./check $p thorough > /tmp/thorough-$p-${VERIF_SEED:-1}.log 2>&1; rc=$?
-  echo "$p seed=${VERIF_SEED:-1} exit=$rc $(( $(date +%s) - start ))s :: $(tail -1 /tmp/thorough-$p-${VERIF_SEED:-1}.log)"
-  grep -E "VIOLATION|KNOWN-FINDING|TROUBLE" /tmp/thorough-$p-${VERIF_SEED:-1}.log | head -5
+  ./check $p thorough > thorough-$p-${VERIF_SEED:-1}.log 2>&1; rc=$?
+  echo "$p seed=${VERIF_SEED:-1} exit=$rc $(( $(date +%s) - start ))s :: $(tail -1 thorough-$p-${VERIF_SEED:-1}.log)"
+  grep -E "VIOLATION|KNOWN-FINDING|TROUBLE" thorough-$p-${VERIF_SEED:-1}.log | head -5
 done
